@@ -756,7 +756,7 @@ class Messenger(Connection):
                         length=pkt.payload.length
                     )
                 elif msgcls == messages.TransferRefuse:
-                    self.recv_xfer_refuse(pkt.payload.transfer_id, pkt.flags)
+                    self.recv_xfer_refuse(pkt.payload.transfer_id, pkt.payload.reason)
 
                 else:
                     # Bad RX message
